@@ -9,6 +9,7 @@ import (
 	"fmt"
 	"io"
 	"strings"
+	"sync"
 	"testing"
 	"time"
 
@@ -216,5 +217,91 @@ func TestVerifC12StalledConsumer(t *testing.T) {
 		}
 		c.Close()
 		s.Close()
+	}
+}
+
+// TestVerifC12MultiFault: several of a session's connections fail at (almost) the same instant - resets and orderly
+// closes mixed - while others stay healthy. Teardown (Mux.tla) must hold whatever the order in which the receiving
+// goroutines notice: both sessions end up closed and EVERY pooled connection is closed by both session ends,
+// including the ones that were healthy and the ones whose receiving goroutine had already closed its end itself.
+func TestVerifC12MultiFault(t *testing.T) {
+	log.SetOutput(io.Discard)
+	log.SetLevel(log.PanicLevel)
+	res := kit.NewResult()
+	defer func() { res.Save(true) }()
+	rng := kit.NewRng(kit.Seed())
+	rounds := 150
+	if kit.Thorough() {
+		rounds = 3000
+	}
+	for r := 0; r < rounds && res.NumViolations() < 3; r++ {
+		nconn := 3 + rng.Intn(6)
+		p := c13NewPair(nconn, []byte{EncryptionMethodPlain, EncryptionMethodAES128GCM}[r%2], kit.Seed()*31+int64(r))
+		// a little traffic so that every connection has been used
+		st, err := p.c.OpenStream()
+		if err == nil {
+			st.Write(c13Fill(1+rng.Intn(3000), 9))
+		}
+		nfail := 2 + rng.Intn(nconn-2)
+		perm := rng.Perm(nconn)[:nfail]
+		how := make([]int, nfail)
+		for i := range how {
+			how[i] = rng.Intn(3)
+		}
+		var wg sync.WaitGroup
+		start := make(chan struct{})
+		for i, ci := range perm {
+			wg.Add(1)
+			go func(l *kit.VLink, how int) {
+				defer wg.Done()
+				<-start
+				switch how {
+				case 0:
+					l.Fail() // reset
+				case 1:
+					l.End(1).Close() // the server's side of the path closes in an orderly way: the client reads EOF
+				default:
+					l.End(0).Close() // the client's end is closed under it (what its own receiving goroutine does when it gives up)
+				}
+			}(p.links[ci], how[i])
+		}
+		close(start)
+		wg.Wait()
+		deadline := time.Now().Add(10 * time.Second)
+		settled := func() bool {
+			if !p.c.IsClosed() || !p.s.IsClosed() {
+				return false
+			}
+			for _, l := range p.links {
+				if !l.ClosedBy(0) || !l.ClosedBy(1) {
+					return false
+				}
+			}
+			return true
+		}
+		for !settled() && time.Now().Before(deadline) {
+			time.Sleep(2 * time.Millisecond)
+		}
+		res.Count(fmt.Sprintf("n%d-f%d", nconn, nfail), true)
+		if !settled() {
+			var open []string
+			for i, l := range p.links {
+				for side, name := range []string{"client", "server"} {
+					if !l.ClosedBy(side) {
+						open = append(open, fmt.Sprintf("connection %d not closed by the %s session", i+1, name))
+					}
+				}
+			}
+			key, what := "conn-not-closed", fmt.Sprintf("%d of %d connections failed together (kinds %v); 10 s later: client closed=%v server closed=%v; %v",
+				nfail, nconn, how, p.c.IsClosed(), p.s.IsClosed(), open)
+			if len(open) == 0 {
+				key = "session-not-closed"
+			}
+			res.Violate(key, what, map[string]any{"round": r, "nconn": nconn, "failed": perm, "kinds": how})
+		}
+		if r < 1 {
+			res.Sample(map[string]any{"nconn": nconn, "failed": perm, "kinds": how}, 1)
+		}
+		p.close()
 	}
 }
